@@ -79,18 +79,30 @@ Proof.
   unfold len in *. rewrite app_length, firstn_length, skipn_length. lia.
 Qed.
 
+(* ---- C++ int results ---- *)
+Lemma ck_ok z : INT_MIN <= z <= INT_MAX -> ck z = Some z.
+Proof. intros H. unfold ck. destruct (Z.leb_spec INT_MIN z); [|lia]. destruct (Z.leb_spec z INT_MAX); [|lia]. reflexivity. Qed.
+Lemma ck_some z r : ck z = Some r -> r = z /\ INT_MIN <= z <= INT_MAX.
+Proof. unfold ck. destruct (Z.leb_spec INT_MIN z); [|discriminate]. destruct (Z.leb_spec z INT_MAX); [|discriminate]. cbn. intros E; injection E as <-. lia. Qed.
+Ltac ckok := rewrite ck_ok by (unfold INT_MIN, INT_MAX in *; lia); cbn [bind].
+(* invert the first bind in hypothesis H *)
+Ltac bind_inv H x E := match type of H with bind ?e _ = _ => destruct e as [x|] eqn:E; [cbn [bind] in H|discriminate H] end.
+
 (* ---- findBalancedReverse ---- *)
-Lemma fbr_loop_total f o c : forall fuel pos count,
-  pos < len f -> (Z.to_nat (pos + 1) < fuel)%nat -> exists r, fbr_loop fuel f o c pos count = Some r.
+Lemma fbr_loop_total f o c : len f <= INT_MAX -> forall fuel pos count,
+  -1 <= pos < len f -> 0 <= count -> count + pos + 1 <= INT_MAX -> (Z.to_nat (pos + 1) < fuel)%nat ->
+  exists r, fbr_loop fuel f o c pos count = Some r.
 Proof.
-  induction fuel as [|fu IH]; intros pos count Hp Hf; [lia|]. cbn [fbr_loop].
-  destruct ((0 <=? pos) && (0 <? count)) eqn:E; [|eauto].
-  apply andb_prop in E as [E1 E2]. apply Z.leb_le in E1. use_at f pos. apply IH; lia.
+  intros HL. induction fuel as [|fu IH]; intros pos count Hp Hc Hb Hf; [lia|]. cbn [fbr_loop].
+  destruct ((0 <=? pos) && (0 <? count)) eqn:E.
+  - apply andb_prop in E as [E1 E2]. apply Z.leb_le in E1. apply Z.ltb_lt in E2. use_at f pos.
+    destruct (x =? c)%N; [ckok|destruct (x =? o)%N; [ckok|cbn [bind]]]; ckok; apply IH; lia.
+  - destruct (count =? 0); [ckok|]; eauto.
 Qed.
-Lemma fbr_total f o c start : start <= len f -> exists r, fbr f o c start = Some r.
+Lemma fbr_total f o c start : len f <= INT_MAX - 1 -> start <= len f -> exists r, fbr f o c start = Some r.
 Proof.
-  intros H. unfold fbr. destruct (start <=? 0) eqn:E; [eauto|]. apply Z.leb_gt in E.
-  apply fbr_loop_total; [lia|]. unfold len in H. lia.
+  intros HL H. unfold fbr. destruct (start <=? 0) eqn:E; [eauto|]. apply Z.leb_gt in E. ckok.
+  apply fbr_loop_total; unfold len in *; lia.
 Qed.
 Lemma fbr_loop_range_pos f o c : forall fuel pos count r,
   fbr_loop fuel f o c pos count = Some r -> 0 < count -> -1 <= pos -> r = -1 \/ (0 <= r <= pos).
@@ -98,47 +110,50 @@ Proof.
   induction fuel as [|fu IH]; intros pos count r H Hc Hp; [discriminate|]. cbn [fbr_loop] in H.
   destruct (Z.leb_spec 0 pos) as [H0|H0]; cbn [andb] in H.
   - destruct (Z.ltb_spec 0 count); [|lia]. destruct (at_ f pos) as [x|]; [|discriminate]. cbn [bind] in H.
-    set (count' := if (x =? c)%N then count + 1 else if (x =? o)%N then count - 1 else count) in H.
-    destruct (Z.ltb_spec 0 count') as [Hc'|Hc'].
-    + apply IH in H; [lia|exact Hc'|lia].
+    bind_inv H count' Ec. bind_inv H pos' Ep. apply ck_some in Ep as [-> _].
+    assert (Hc' : count' = count + 1 \/ count' = count - 1 \/ count' = count).
+    { destruct (x =? c)%N; [apply ck_some in Ec; lia|]. destruct (x =? o)%N; [apply ck_some in Ec; lia|]. injection Ec as <-. lia. }
+    destruct (Z.ltb_spec 0 count') as [Hc1|Hc1].
+    + apply IH in H; [lia|exact Hc1|lia].
     + destruct fu as [|fu']; [discriminate|]. cbn [fbr_loop] in H.
       destruct ((0 <=? pos - 1) && (0 <? count')) eqn:E.
       * apply andb_prop in E as [_ E2]. apply Z.ltb_lt in E2. lia.
-      * injection H as <-. assert (count' = 0) by (unfold count' in *; destruct (x =? c)%N; [lia|destruct (x =? o)%N; lia]).
-        rewrite H. cbn. right. lia.
-  - injection H as <-. destruct (Z.eqb_spec count 0); [lia|left; reflexivity].
+      * assert (count' = 0) by lia. subst count'. cbn in H. apply ck_some in H as [-> _]. right. lia.
+  - destruct (Z.eqb_spec count 0); [lia|]. injection H as <-. left; reflexivity.
 Qed.
 Lemma fbr_range f o c start r : fbr f o c start = Some r -> r = -1 \/ (0 <= r < start).
 Proof.
   unfold fbr. destruct (Z.leb_spec start 0) as [Hle|Hgt]; [intros E; injection E as <-; left; reflexivity|].
-  intros E. apply fbr_loop_range_pos in E; lia.
+  intros E. bind_inv E p Ep. apply ck_some in Ep as [-> _]. apply fbr_loop_range_pos in E; lia.
 Qed.
 
 (* ---- simple left scans ---- *)
-Lemma skip_spaces_left_total f : forall fuel p, -1 <= p < len f -> (Z.to_nat (p + 1) < fuel)%nat ->
+Lemma skip_spaces_left_total f : len f <= INT_MAX -> forall fuel p, -1 <= p < len f -> (Z.to_nat (p + 1) < fuel)%nat ->
   exists r, skip_spaces_left fuel f p = Some r /\ -1 <= r <= p.
 Proof.
-  induction fuel as [|fu IH]; intros p Hp Hf; [lia|]. cbn [skip_spaces_left].
+  intros HL. induction fuel as [|fu IH]; intros p Hp Hf; [lia|]. cbn [skip_spaces_left].
   destruct (Z.leb_spec 0 p); [|eexists; split; [reflexivity|lia]].
-  use_at f p. destruct (x =? c_sp)%N; [|eexists; split; [reflexivity|lia]].
+  use_at f p. destruct (x =? c_sp)%N; [|eexists; split; [reflexivity|lia]]. ckok.
   destruct (IH (p - 1)) as (r & Hr & Hb); [lia|lia|]. exists r. split; [exact Hr|lia].
 Qed.
-Lemma skip_ident_left_total f : forall fuel p, -1 <= p < len f -> (Z.to_nat (p + 1) < fuel)%nat ->
+Lemma skip_ident_left_total f : len f <= INT_MAX -> forall fuel p, -1 <= p < len f -> (Z.to_nat (p + 1) < fuel)%nat ->
   exists r, skip_ident_left fuel f p = Some r /\ -1 <= r <= p.
 Proof.
-  induction fuel as [|fu IH]; intros p Hp Hf; [lia|]. cbn [skip_ident_left].
+  intros HL. induction fuel as [|fu IH]; intros p Hp Hf; [lia|]. cbn [skip_ident_left].
   destruct (Z.leb_spec 0 p); [|eexists; split; [reflexivity|lia]].
-  use_at f p. destruct (is_lon_latin1 x || (x =? c_us)%N); [|eexists; split; [reflexivity|lia]].
+  use_at f p. destruct (is_lon_latin1 x || (x =? c_us)%N); [|eexists; split; [reflexivity|lia]]. ckok.
   destruct (IH (p - 1)) as (r & Hr & Hb); [lia|lia|]. exists r. split; [exact Hr|lia].
 Qed.
 
-(* ---- function-pointer scan: finishes, and the remembered position lies inside the scanned range ---- *)
-Lemma fp_scan_total f stop : stop <= len f -> forall fuel i depth args, 0 <= i -> (Z.to_nat (stop - i) < fuel)%nat ->
+(* ---- function-pointer scan: finishes, the depth counter stays an int, and the remembered
+        position lies inside the scanned range ---- *)
+Lemma fp_scan_total f stop : len f <= INT_MAX -> stop <= len f -> forall fuel i depth args, 0 <= i ->
+  depth + (stop - i) <= INT_MAX -> INT_MIN <= depth - (stop - i) -> (Z.to_nat (stop - i) < fuel)%nat ->
   exists r, fp_scan fuel f i stop depth args = Some r.
 Proof.
-  intros Hs. induction fuel as [|fu IH]; intros i depth args Hi Hf; [lia|]. cbn [fp_scan].
-  destruct (Z.ltb_spec i stop); [|eauto]. use_at f i.
-  destruct (x =? c_lpar)%N; [apply IH; lia|]. destruct (x =? c_rpar)%N; apply IH; lia.
+  intros HL Hs. induction fuel as [|fu IH]; intros i depth args Hi Hd1 Hd2 Hf; [lia|]. cbn [fp_scan].
+  destruct (Z.ltb_spec i stop); [|eauto]. use_at f i. ckok.
+  destruct (x =? c_lpar)%N; [ckok; apply IH; lia|]. destruct (x =? c_rpar)%N; [ckok|]; apply IH; lia.
 Qed.
 Lemma fp_scan_range f stop lo : forall fuel i depth args r, fp_scan fuel f i stop depth args = Some r ->
   lo <= i -> (args = -1 \/ lo <= args < stop) -> (r = -1 \/ lo <= r < stop).
@@ -146,86 +161,88 @@ Proof.
   induction fuel as [|fu IH]; intros i depth args r H Hi Ha; [discriminate|]. cbn [fp_scan] in H.
   destruct (Z.ltb_spec i stop); [|injection H as <-; exact Ha].
   destruct (at_ f i) as [x|]; [|discriminate]. cbn [bind] in H.
+  bind_inv H i' Ei. apply ck_some in Ei as [-> _].
   destruct (x =? c_lpar)%N.
-  - eapply IH; [exact H|lia|]. destruct (depth =? 0); [right; lia|exact Ha].
-  - destruct (x =? c_rpar)%N; (eapply IH; [exact H|lia|exact Ha]).
+  - bind_inv H d' Ed. eapply IH; [exact H|lia|]. destruct (depth =? 0); [right; lia|exact Ha].
+  - destruct (x =? c_rpar)%N; [bind_inv H d' Ed|]; (eapply IH; [exact H|lia|exact Ha]).
 Qed.
 
 (* ---- scan without operator ---- *)
-Lemma noop_scan_total f : forall fuel pos pc ac, pos < len f -> (Z.to_nat (pos + 1) < fuel)%nat ->
+Lemma noop_scan_total f : len f <= INT_MAX -> forall fuel pos pc ac, -1 <= pos < len f -> 0 <= pc -> 0 <= ac ->
+  pc + pos + 1 <= INT_MAX -> ac + pos + 1 <= INT_MAX -> (Z.to_nat (pos + 1) < fuel)%nat ->
   exists r, noop_scan fuel f pos pc ac = Some r /\ len r <= len f.
 Proof.
-  induction fuel as [|fu IH]; intros pos pc ac Hp Hf; [lia|]. cbn [noop_scan].
-  destruct (Z.leb_spec 0 pos); [|exists f; split; [reflexivity|lia]]. use_at f pos.
-  destruct (x =? c_rpar)%N; [apply IH; lia|].
-  destruct ((x =? c_lpar)%N && (0 <? pc)); [apply IH; lia|].
-  destruct (x =? c_gt)%N; [apply IH; lia|].
-  destruct ((x =? c_lt)%N && (0 <? ac)); [apply IH; lia|].
+  intros HL. induction fuel as [|fu IH]; intros pos pc ac Hp Hpc Hac Hb1 Hb2 Hf; [lia|]. cbn [noop_scan].
+  destruct (Z.leb_spec 0 pos); [|exists f; split; [reflexivity|lia]]. use_at f pos. ckok.
+  destruct (x =? c_rpar)%N; [ckok; apply IH; lia|].
+  destruct ((x =? c_lpar)%N && (0 <? pc)) eqn:E1; [apply andb_prop in E1 as [_ E1]; apply Z.ltb_lt in E1; ckok; apply IH; lia|].
+  destruct (x =? c_gt)%N; [ckok; apply IH; lia|].
+  destruct ((x =? c_lt)%N && (0 <? ac)) eqn:E2; [apply andb_prop in E2 as [_ E2]; apply Z.ltb_lt in E2; ckok; apply IH; lia|].
   destruct ((0 <? pc) || (0 <? ac)); [apply IH; lia|].
-  destruct (x =? c_sp)%N; [apply mid_c_ok; lia|apply IH; lia].
+  destruct (x =? c_sp)%N; [ckok; apply mid_c_ok; lia|apply IH; lia].
 Qed.
 
 (* ---- template-membership scan, operator-char scan ---- *)
-Lemma inside_template_total f : forall fuel i ad, i < len f -> (Z.to_nat (i + 1) < fuel)%nat ->
-  exists r, inside_template fuel f i ad = Some r.
+Lemma inside_template_total f : len f <= INT_MAX -> forall fuel i ad, -1 <= i < len f -> 0 <= ad -> ad + i + 1 <= INT_MAX ->
+  (Z.to_nat (i + 1) < fuel)%nat -> exists r, inside_template fuel f i ad = Some r.
 Proof.
-  induction fuel as [|fu IH]; intros i ad Hp Hf; [lia|]. cbn [inside_template].
-  destruct (Z.leb_spec 0 i); [|eauto]. use_at f i.
-  destruct (x =? c_gt)%N; [apply IH; lia|]. destruct (x =? c_lt)%N; [|apply IH; lia].
-  destruct (ad =? 0); [eauto|apply IH; lia].
+  intros HL. induction fuel as [|fu IH]; intros i ad Hp Ha Hb Hf; [lia|]. cbn [inside_template].
+  destruct (Z.leb_spec 0 i); [|eauto]. use_at f i. ckok.
+  destruct (x =? c_gt)%N; [ckok; apply IH; lia|]. destruct (x =? c_lt)%N; [|apply IH; lia].
+  destruct (Z.eqb_spec ad 0); [eauto|ckok; apply IH; lia].
 Qed.
-Lemma all_opchars_total cfg f stop : stop < len f -> forall fuel i, 0 <= i -> (Z.to_nat (stop + 1 - i) < fuel)%nat ->
+Lemma all_opchars_total cfg f stop : len f <= INT_MAX -> stop < len f -> forall fuel i, 0 <= i -> (Z.to_nat (stop + 1 - i) < fuel)%nat ->
   exists r, all_opchars cfg fuel f i stop = Some r.
 Proof.
-  intros Hs. induction fuel as [|fu IH]; intros i Hi Hf; [lia|]. cbn [all_opchars].
+  intros HL Hs. induction fuel as [|fu IH]; intros i Hi Hf; [lia|]. cbn [all_opchars].
   destruct (Z.leb_spec i stop); [|eauto]. use_at f i.
-  destruct (existsb _ (opchars cfg)); [apply IH; lia|eauto].
+  destruct (existsb _ (opchars cfg)); [ckok; apply IH; lia|eauto].
 Qed.
-Lemma op_before_total f p : p <= len f -> exists b, op_before f p = Some b.
+Lemma op_before_total f p : len f <= INT_MAX -> p <= len f -> exists b, op_before f p = Some b.
 Proof.
-  intros H. unfold op_before. destruct (Z.leb_spec 8 p); [|eauto].
+  intros HL H. unfold op_before. destruct (Z.leb_spec 8 p); [|eauto]. ckok.
   destruct (mid_c_ok f (p - 8) 8) as (m & -> & _); [pose proof (len_nonneg f); lia|right; lia|]. cbn [bind]. eauto.
 Qed.
 
 (* ---- the operator branch: every recursive call moves strictly left ---- *)
-Lemma op_scan_total f : forall fuel sp, sp < len f -> (Z.to_nat (sp + 1) < fuel)%nat ->
+Lemma op_scan_total f : len f <= INT_MAX - 1 -> forall fuel sp, sp < len f -> (Z.to_nat (sp + 1) < fuel)%nat ->
   exists r, op_scan fuel f sp = Some r /\ (forall g, r = Some g -> len g <= len f).
 Proof.
-  induction fuel as [|fu IH]; intros sp Hp Hf; [lia|]. cbn [op_scan].
+  intros HL. induction fuel as [|fu IH]; intros sp Hp Hf; [lia|]. cbn [op_scan].
   destruct (Z.leb_spec 0 sp); [|eexists; split; [reflexivity|discriminate]]. use_at f sp.
-  assert (Hq : exists isq, (if (1 <=? sp) && (x =? c_colon)%N then do d <- at_ f (sp - 1); Some (d =? c_colon)%N else Some false) = Some isq /\ (isq = true -> 1 <= sp)).
+  match goal with |- exists r, bind ?e _ = Some r /\ _ => assert (Hq : exists isq, e = Some isq /\ (isq = true -> 1 <= sp)) end.
   { destruct ((1 <=? sp) && (x =? c_colon)%N) eqn:E; [|eexists; split; [reflexivity|discriminate]]. apply andb_prop in E as [E1 _]. apply Z.leb_le in E1.
-    destruct (at_ok f (sp - 1)) as [d Hd]; [lia|]. rewrite Hd. cbn [bind]. eexists; split; [reflexivity|intros; lia]. }
+    ckok. destruct (at_ok f (sp - 1)) as [d Hd]; [lia|]. rewrite Hd. cbn [bind]. eexists; split; [reflexivity|intros; lia]. }
   destruct Hq as (isq & -> & Hsp1pos). cbn [bind]. destruct isq.
-  2:{ destruct (x =? c_sp)%N; [|eexists; split; [reflexivity|discriminate]].
+  2:{ destruct (x =? c_sp)%N; [|eexists; split; [reflexivity|discriminate]]. ckok.
       destruct (mid_c_ok f (sp + 1) (-1)) as (g & -> & Hg); [lia|left; reflexivity|]. cbn [bind].
       eexists; split; [reflexivity|]. intros g' E; injection E as <-. exact Hg. }
-  specialize (Hsp1pos eq_refl).
-  destruct (skip_spaces_left_total f (S (length f)) (sp - 2)) as (sp1 & Hsp1 & Hb1); [lia|unfold len in Hp; lia|].
+  specialize (Hsp1pos eq_refl). ckok.
+  destruct (skip_spaces_left_total f ltac:(lia) (S (length f)) (sp - 2)) as (sp1 & Hsp1 & Hb1); [lia|unfold len in Hp; lia|].
   rewrite Hsp1. cbn [bind].
-  assert (Hc1 : exists c1, (if 0 <=? sp1 then do x0 <- at_ f sp1; Some (Some x0) else Some None) = Some c1 /\ (forall y, c1 = Some y -> 0 <= sp1)).
+  match goal with |- exists r, bind ?e _ = Some r /\ _ => assert (Hc1 : exists c1, e = Some c1 /\ (forall y, c1 = Some y -> 0 <= sp1)) end.
   { destruct (Z.leb_spec 0 sp1); [|eexists; split; [reflexivity|discriminate]].
     destruct (at_ok f sp1) as [y Hy]; [lia|]. rewrite Hy. cbn [bind]. eexists; split; [reflexivity|intros; lia]. }
   destruct Hc1 as (c1 & -> & Hc1pos). cbn [bind].
-  assert (Hr1 : exists r1, match c1 with
-                  | Some x0 => if (x0 =? c_rpar)%N then do o <- fbr f c_lpar c_rpar (sp1 + 1); Some (if o =? -1 then None else Some (o - 1)) else Some None
-                  | None => Some None end = Some r1 /\ (forall n, r1 = Some n -> n < sp)).
+  match goal with |- exists r, bind ?e _ = Some r /\ _ => assert (Hr1 : exists r1, e = Some r1 /\ (forall n, r1 = Some n -> -1 <= n < sp)) end.
   { destruct c1 as [y|]; [|eexists; split; [reflexivity|discriminate]].
     destruct (y =? c_rpar)%N; [|eexists; split; [reflexivity|discriminate]].
-    destruct (fbr_total f c_lpar c_rpar (sp1 + 1)) as [o Ho]; [lia|]. rewrite Ho. cbn [bind].
-    eexists; split; [reflexivity|]. intros n Hn. apply fbr_range in Ho. destruct (Z.eqb_spec o (-1)); [discriminate|]. injection Hn as <-. lia. }
+    specialize (Hc1pos y eq_refl). ckok.
+    destruct (fbr_total f c_lpar c_rpar (sp1 + 1)) as [o Ho]; [lia|lia|]. rewrite Ho. cbn [bind].
+    apply fbr_range in Ho. destruct (Z.eqb_spec o (-1)); [eexists; split; [reflexivity|discriminate]|]. ckok.
+    eexists; split; [reflexivity|]. intros k Hk. injection Hk as <-. lia. }
   destruct Hr1 as (r1 & -> & Hr1lt). cbn [bind]. destruct r1 as [nsp|].
-  { apply IH; [specialize (Hr1lt nsp eq_refl); lia|specialize (Hr1lt nsp eq_refl); lia]. }
-  assert (Hr2 : exists r2, match c1 with
-                  | Some x0 => if (x0 =? c_gt)%N then do o <- fbr f c_lt c_gt (sp1 + 1); Some (if o =? -1 then None else Some (o - 1)) else Some None
-                  | None => Some None end = Some r2 /\ (forall n, r2 = Some n -> n < sp)).
+  { specialize (Hr1lt nsp eq_refl). apply IH; lia. }
+  match goal with |- exists r, bind ?e _ = Some r /\ _ => assert (Hr2 : exists r2, e = Some r2 /\ (forall n, r2 = Some n -> -1 <= n < sp)) end.
   { destruct c1 as [y|]; [|eexists; split; [reflexivity|discriminate]].
     destruct (y =? c_gt)%N; [|eexists; split; [reflexivity|discriminate]].
-    destruct (fbr_total f c_lt c_gt (sp1 + 1)) as [o Ho]; [lia|]. rewrite Ho. cbn [bind].
-    eexists; split; [reflexivity|]. intros n Hn. apply fbr_range in Ho. destruct (Z.eqb_spec o (-1)); [discriminate|]. injection Hn as <-. lia. }
+    specialize (Hc1pos y eq_refl). ckok.
+    destruct (fbr_total f c_lt c_gt (sp1 + 1)) as [o Ho]; [lia|lia|]. rewrite Ho. cbn [bind].
+    apply fbr_range in Ho. destruct (Z.eqb_spec o (-1)); [eexists; split; [reflexivity|discriminate]|]. ckok.
+    eexists; split; [reflexivity|]. intros k Hk. injection Hk as <-. lia. }
   destruct Hr2 as (r2 & -> & Hr2lt). cbn [bind]. destruct r2 as [nsp|].
-  { apply IH; [specialize (Hr2lt nsp eq_refl); lia|specialize (Hr2lt nsp eq_refl); lia]. }
-  destruct (skip_ident_left_total f (S (length f)) sp1) as (sp2 & Hsp2 & Hb2); [lia|unfold len in Hp; lia|].
+  { specialize (Hr2lt nsp eq_refl). apply IH; lia. }
+  destruct (skip_ident_left_total f ltac:(lia) (S (length f)) sp1) as (sp2 & Hsp2 & Hb2); [lia|unfold len in Hp; lia|].
   rewrite Hsp2. cbn [bind]. apply IH; lia.
 Qed.
 
@@ -270,46 +287,47 @@ Lemma last_index_range s needle r : last_index s needle = r -> r = -1 \/ (0 <= r
 Proof. unfold last_index. intros H. apply rfind_aux_range in H; [lia|left; reflexivity|lia]. Qed.
 
 (* ---- "()::" removal: measure 2*len - pos ---- *)
-Lemma empty_parens_total : forall fuel f pos, 0 <= pos -> (Z.to_nat (2 * len f + 4 - pos) < fuel)%nat ->
+Lemma empty_parens_total : forall fuel f pos, len f <= INT_MAX - 1 -> 0 <= pos -> (Z.to_nat (2 * len f + 4 - pos) < fuel)%nat ->
   exists r, empty_parens fuel f pos = Some r /\ len r <= len f.
 Proof.
-  induction fuel as [|fu IH]; intros f pos Hpos Hf; [lia|]. cbn [empty_parens].
+  induction fuel as [|fu IH]; intros f pos HL Hpos Hf; [lia|]. cbn [empty_parens].
   destruct (Z.eqb_spec (index_of f s_pp pos) (-1)) as [E|E]; [exists f; split; [reflexivity|lia]|].
   destruct (index_of_range f s_pp pos _ Hpos eq_refl) as [Hr|[Hr1 Hr2]]; [contradiction|].
   set (p := index_of f s_pp pos) in *. change (len s_pp) with 4 in Hr2.
-  destruct (op_before_total f p) as [isop ->]; [lia|]. cbn [bind]. destruct isop.
-  - apply IH; [lia|lia].
-  - destruct (inside_template_total f (S (length f)) (p - 1) 0) as [ins Hins]; [lia|unfold len in *; lia|].
+  destruct (op_before_total f p) as [isop ->]; [lia|lia|]. cbn [bind]. ckok. destruct isop.
+  - apply IH; lia.
+  - ckok. destruct (inside_template_total f ltac:(lia) (S (length f)) (p - 1) 0) as [ins Hins]; [lia|lia|lia|unfold len in *; lia|].
     rewrite Hins. cbn [bind]. destruct ins.
-    + apply IH; [lia|lia].
+    + apply IH; lia.
     + destruct (remove_c_ok f p 2) as (g & -> & Hg); [lia|lia|lia|]. cbn [bind].
-      destruct (IH g p) as (r & Hr & Hl); [lia|lia|]. exists r. split; [exact Hr|lia].
+      destruct (IH g p) as (r & Hr & Hl); [lia|lia|lia|]. exists r. split; [exact Hr|lia].
 Qed.
 
 (* ---- template removal: each round removes at least two bytes ---- *)
-Lemma strip_templates_total cfg : forall fuel f, (Z.to_nat (len f) < fuel)%nat ->
+Lemma strip_templates_total cfg : forall fuel f, len f <= INT_MAX - 1 -> (Z.to_nat (len f) < fuel)%nat ->
   exists r, strip_templates cfg fuel f = Some r /\ len r <= len f.
 Proof.
-  induction fuel as [|fu IH]; intros f Hf; [lia|]. cbn [strip_templates].
+  induction fuel as [|fu IH]; intros f HL Hf; [lia|]. cbn [strip_templates].
   destruct (Z.eqb_spec (last_index f [c_gt]) (-1)) as [E|E]; [exists f; split; [reflexivity|lia]|].
   destruct (last_index_range f [c_gt] _ eq_refl) as [Hr|[Hr1 Hr2]]; [contradiction|].
   set (ca := last_index f [c_gt]) in *. change (len [c_gt]) with 1 in Hr2.
   cbn zeta.
-  assert (Hstop : exists stop, (if last_index_of f s_operator ca =? -1 then Some false
-                  else if last_index_of f s_operator ca + 8 <=? ca then all_opchars cfg (S (length f)) f (last_index_of f s_operator ca + 8) ca else Some false) = Some stop).
+  match goal with |- exists r, bind ?e _ = Some r /\ _ => assert (Hstop : exists stop, e = Some stop) end.
   { destruct (last_index_of f s_operator ca =? -1) eqn:E1; [eauto|].
-    destruct (Z.leb_spec (last_index_of f s_operator ca + 8) ca); [|eauto].
     destruct (last_index_of_range f s_operator ca _ eq_refl) as [Hx|[Hx1 Hx2]]; [apply Z.eqb_neq in E1; contradiction|].
-    apply all_opchars_total; [lia|lia|unfold len in *; lia]. }
+    change (len s_operator) with 8 in Hx2. ckok.
+    destruct (Z.leb_spec (last_index_of f s_operator ca + 8) ca); [|eauto].
+    apply all_opchars_total; [lia|lia|lia|unfold len in *; lia]. }
   destruct Hstop as [stop ->]. cbn [bind]. destruct stop; [exists f; split; [reflexivity|lia]|].
-  destruct (fbr_total f c_lt c_gt ca) as [oa Hoa]; [lia|]. rewrite Hoa. cbn [bind].
+  destruct (fbr_total f c_lt c_gt ca) as [oa Hoa]; [lia|lia|]. rewrite Hoa. cbn [bind].
   destruct (Z.eqb_spec oa (-1)); [exists f; split; [reflexivity|lia]|].
   apply fbr_range in Hoa. destruct Hoa as [Hoa|Hoa]; [contradiction|].
-  destruct (op_before_total f oa) as [isop ->]; [lia|]. cbn [bind]. destruct isop; [exists f; split; [reflexivity|lia]|].
+  destruct (op_before_total f oa) as [isop ->]; [lia|lia|]. cbn [bind]. destruct isop; [exists f; split; [reflexivity|lia]|].
+  ckok. ckok. ckok.
   destruct (mid_c_ok f (oa + 1) (ca - oa - 1)) as (inner & -> & _); [lia|right; lia|]. cbn [bind].
-  destruct (starts_with inner s_lambda); [exists f; split; [reflexivity|lia]|].
+  destruct (starts_with inner s_lambda); [exists f; split; [reflexivity|lia]|]. ckok.
   destruct (remove_c_ok f oa (ca - oa + 1)) as (g & -> & Hg); [lia|lia|lia|]. cbn [bind].
-  destruct (IH g) as (r & Hr & Hl); [lia|]. exists r. split; [exact Hr|lia].
+  destruct (IH g) as (r & Hr & Hl); [lia|lia|]. exists r. split; [exact Hr|lia].
 Qed.
 
 (* ---- the remaining loops ---- *)
@@ -361,40 +379,42 @@ Proof.
 Qed.
 
 (* ---- the look-behind of phase 5 ---- *)
-Lemma is_operator_call_total cfg f op : cfg_okb cfg = true -> 0 <= op < len f ->
+Lemma is_operator_call_total cfg f op : cfg_okb cfg = true -> len f <= INT_MAX -> 0 <= op < len f ->
   exists b, is_operator_call cfg f op = Some b.
 Proof.
-  unfold cfg_okb. intros Hc Hop.
+  unfold cfg_okb. intros Hc HL Hop.
   repeat (apply andb_prop in Hc as [Hc ?]).
-  unfold is_operator_call. destruct (Z.leb_spec (g_ge cfg) op); [|eauto].
+  unfold is_operator_call. destruct (Z.leb_spec (g_ge cfg) op); [|eauto]. ckok.
   destruct (mid_c_ok f (op - g_off cfg) (g_len cfg)) as (m & -> & _); [lia|right; lia|]. cbn [bind].
   destruct (beqb m (kw cfg)); [|eauto]. destruct (Z.eqb_spec op (g_eq cfg)); [eauto|].
-  destruct (at_ok f (op - g_at cfg)) as [pc Hpc].
+  assert (Hat : 0 <= op - g_at cfg < len f).
   { match goal with H : (_ || _) = true |- _ => apply orb_prop in H as [H|H] end; [lia|].
     apply andb_prop in H as [Hx1 Hx2]. lia. }
-  rewrite Hpc. cbn [bind]. eauto.
+  ckok. destruct (at_ok f (op - g_at cfg)) as [pc Hpc]; [lia|]. rewrite Hpc. cbn [bind]. eauto.
 Qed.
 
 (* ---- the whole function ---- *)
 Theorem cleanup_cfg_total : forall cfg, cfg_okb cfg = true ->
-  forall func0, exists r, cleanup_cfg cfg func0 = Some r /\ len r <= len func0.
+  forall func0, len func0 <= INT_MAX - 1 -> exists r, cleanup_cfg cfg func0 = Some r /\ len r <= len func0.
 Proof.
-  intros cfg Hcfg func0. unfold cleanup_cfg. destruct func0 as [|c0 t0] eqn:Ef0; [exists []; split; [reflexivity|lia]|].
-  rewrite <- Ef0. set (n0 := S (length func0)).
+  intros cfg Hcfg func0 HL0. unfold cleanup_cfg. destruct func0 as [|c0 t0] eqn:Ef0; [exists []; split; [reflexivity|lia]|].
+  rewrite <- Ef0 in *. set (n0 := S (length func0)).
   assert (Hn0 : Z.of_nat n0 = len func0 + 1) by (unfold n0, len; lia).
+  assert (Hpos0 : 1 <= len func0) by (rewrite Ef0; unfold len; cbn [length]; lia).
   assert (Hq : forallb (fun q => negb (beqb q [])) (quals cfg) = true).
   { unfold cfg_okb in Hcfg. repeat (apply andb_prop in Hcfg as [Hcfg _]). exact Hcfg. }
   (* phase 1 *)
   match goal with |- exists r, bind ?e _ = Some r /\ _ =>
     assert (Hph1 : exists f1, e = Some f1 /\ len f1 <= len func0) end.
-  { destruct (_ && _ && _); [|exists func0; split; [reflexivity|lia]].
-    destruct (fbr_total func0 c_lbr c_rbr (len func0 - 1)) as [ob Hob]; [lia|]. rewrite Hob. cbn [bind].
+  { destruct (_ && _ && _); [|exists func0; split; [reflexivity|lia]]. ckok.
+    destruct (fbr_total func0 c_lbr c_rbr (len func0 - 1)) as [ob Hob]; [lia|lia|]. rewrite Hob. cbn [bind].
     destruct (Z.eqb_spec ob (-1)); [exists func0; split; [reflexivity|lia]|].
     apply fbr_range in Hob. destruct Hob as [Hob|Hob]; [contradiction|]. apply truncate_c_ok. lia. }
   destruct Hph1 as (f1 & -> & Hl1). cbn [bind].
   destruct (chop_spaces_total n0 f1) as (f2 & -> & Hl2); [lia|]. cbn [bind]. cbn zeta.
   set (f3 := replace_all f2 s_operator_sp s_operator).
   assert (Hl3 : len f3 <= len func0) by (unfold f3; pose proof (replace_all_len f2); lia).
+  pose proof (len_nonneg f3) as Hf30.
   (* function-pointer form *)
   set (poi := index_of f3 (B [41; 40]) 0).
   match goal with |- exists r, bind ?e _ = Some r /\ _ =>
@@ -406,12 +426,13 @@ Proof.
     destruct (negb (pp =? -1) && (pp <? poi)) eqn:E; [|eexists; split; [reflexivity|discriminate]].
     apply andb_prop in E as [E1 E2]. apply negb_true_iff, Z.eqb_neq in E1. apply Z.ltb_lt in E2.
     destruct (index_of_range f3 (B [40; 42]) 0 pp) as [Hx|[Hq1 Hq2]]; [lia|reflexivity|contradiction|].
-    change (len (B [40; 42])) with 2 in Hq2.
-    destruct (fp_scan_total f3 poi) with (fuel := n0) (i := pp + 2) (depth := 0) (args := -1) as [ap Hap]; [lia|lia|lia|].
+    change (len (B [40; 42])) with 2 in Hq2. ckok.
+    destruct (fp_scan_total f3 poi) with (fuel := n0) (i := pp + 2) (depth := 0) (args := -1) as [ap Hap];
+      [lia|lia|lia|unfold INT_MAX in *; lia|unfold INT_MIN, INT_MAX in *; lia|lia|].
     rewrite Hap. cbn [bind].
     destruct (negb (ap =? -1) && (pp + 2 <? ap)) eqn:E3; [|eexists; split; [reflexivity|discriminate]].
     apply andb_prop in E3 as [E3 E4]. apply negb_true_iff, Z.eqb_neq in E3. apply Z.ltb_lt in E4.
-    apply fp_scan_range with (lo := pp + 2) in Hap; [|lia|left; reflexivity]. destruct Hap as [Hap|Hap]; [contradiction|].
+    apply fp_scan_range with (lo := pp + 2) in Hap; [|lia|left; reflexivity]. destruct Hap as [Hap|Hap]; [contradiction|]. ckok.
     destruct (mid_c_ok f3 (pp + 2) (ap - (pp + 2))) as (g & -> & Hg); [lia|right; lia|]. cbn [bind].
     eexists; split; [reflexivity|]. intros g' Eg; injection Eg as <-. lia. }
   destruct Hfp as (fp & -> & Hfpl). cbn [bind].
@@ -423,31 +444,32 @@ Proof.
       assert (H4 : exists f4, e = Some f4 /\ len f4 <= len f3) end.
     { destruct (Z.eqb_spec (last_index f3 [c_rpar]) (-1)); [exists f3; split; [reflexivity|lia]|].
       destruct (last_index_range f3 [c_rpar] _ eq_refl) as [Hx|[He1 He2]]; [contradiction|]. change (len [c_rpar]) with 1 in He2.
-      destruct (fbr_total f3 c_lpar c_rpar (last_index f3 [c_rpar])) as [op Hop]; [lia|]. rewrite Hop. cbn [bind].
+      destruct (fbr_total f3 c_lpar c_rpar (last_index f3 [c_rpar])) as [op Hop]; [lia|lia|]. rewrite Hop. cbn [bind].
       destruct (Z.eqb_spec op (-1)); [exists f3; split; [reflexivity|lia]|].
       apply fbr_range in Hop. destruct Hop as [Hop|Hop]; [contradiction|].
-      destruct (is_operator_call_total cfg f3 op Hcfg) as [isop ->]; [lia|]. cbn [bind].
+      destruct (is_operator_call_total cfg f3 op Hcfg) as [isop ->]; [lia|lia|]. cbn [bind].
       destruct isop; [exists f3; split; [reflexivity|lia]|apply truncate_c_ok; lia]. }
     destruct H4 as (f4 & -> & Hl4). cbn [bind].
     destruct (strip_quals_total cfg Hq n0 f4) as (f5 & -> & Hl5); [lia|]. cbn [bind]. cbn zeta.
+    pose proof (len_nonneg f5) as Hf50.
     set (opos := last_index f5 s_operator).
     match goal with |- exists r, bind ?e _ = Some r /\ _ =>
       assert (H6 : exists f6, e = Some f6 /\ len f6 <= len f5) end.
     { destruct (Z.eqb_spec opos (-1)); cbn [negb].
-      - apply noop_scan_total; lia.
+      - ckok. apply noop_scan_total; unfold INT_MAX in *; lia.
       - destruct (last_index_range f5 s_operator _ eq_refl) as [Hx|[Ho1 Ho2]]; [contradiction|]. fold opos in Ho1, Ho2. change (len s_operator) with 8 in Ho2.
-        destruct (skip_spaces_left_total f5 n0 (opos - 1)) as (sp & Hsp & Hb); [lia|lia|]. rewrite Hsp. cbn [bind].
-        destruct (op_scan_total f5 n0 sp) as (r & Hr & Hrl); [lia|lia|]. rewrite Hr. cbn [bind].
+        ckok. destruct (skip_spaces_left_total f5 ltac:(lia) n0 (opos - 1)) as (sp & Hsp & Hb); [lia|lia|]. rewrite Hsp. cbn [bind].
+        destruct (op_scan_total f5 ltac:(lia) n0 sp) as (r & Hr & Hrl); [lia|lia|]. rewrite Hr. cbn [bind].
         destruct r as [g|]; [exists g; split; [reflexivity|apply Hrl; reflexivity]|].
         cbn zeta. destruct (negb (index_of f5 [c_sp] 0 =? -1) && (index_of f5 [c_sp] 0 <? opos)) eqn:E; [|exists f5; split; [reflexivity|lia]].
         apply andb_prop in E as [E1 E2]. apply negb_true_iff, Z.eqb_neq in E1. apply Z.ltb_lt in E2.
-        destruct (index_of_range f5 [c_sp] 0 _ ltac:(lia) eq_refl) as [Hx|[Hs1 Hs2]]; [contradiction|].
+        destruct (index_of_range f5 [c_sp] 0 _ ltac:(lia) eq_refl) as [Hx|[Hs1 Hs2]]; [contradiction|]. ckok.
         apply mid_c_ok; [lia|left; reflexivity]. }
     destruct H6 as (f6 & -> & Hl6). cbn [bind].
     destruct (strip_lead_total n0 f6) as (f7 & Hf7 & Hl7); [lia|]. exists f7. split; [exact Hf7|lia]. }
   destruct H7 as (f7 & -> & Hl7). cbn [bind].
-  destruct (empty_parens_total (2 * n0 + 8) f7 0) as (f8 & -> & Hl8); [lia|lia|]. cbn [bind].
-  destruct (strip_templates_total cfg n0 f8) as (r & Hr & Hl); [lia|]. exists r. split; [exact Hr|lia].
+  destruct (empty_parens_total (2 * n0 + 8) f7 0) as (f8 & -> & Hl8); [lia|lia|lia|]. cbn [bind].
+  destruct (strip_templates_total cfg n0 f8) as (r & Hr & Hl); [lia|lia|]. exists r. split; [exact Hr|lia].
 Qed.
 
 (* the oracle evaluated on implementation output is exactly "implementation = checked model" *)
@@ -457,10 +479,10 @@ Proof.
   - apply andb_prop in H as [H1 H2]. apply N.eqb_eq in H1. apply IH in H2. congruence.
   - injection H as -> ->. rewrite N.eqb_refl. cbn. apply IH. reflexivity.
 Qed.
-Lemma oracle_iff input out : cfg_okb src_cfg = true ->
+Lemma oracle_iff input out : cfg_okb src_cfg = true -> len input <= INT_MAX - 1 ->
   (prop_c14_func_b input out = true <-> cleanup input = Some out).
 Proof.
-  intros Hc. unfold prop_c14_func_b. destruct (cleanup_cfg_total src_cfg Hc input) as (r & Hr & Hl).
+  intros Hc HL. unfold prop_c14_func_b. destruct (cleanup_cfg_total src_cfg Hc input HL) as (r & Hr & Hl).
   unfold cleanup in *. rewrite Hr. split.
   - intros H. apply andb_prop in H as [H _]. apply beqb_eq in H. congruence.
   - intros H. injection H as <-. apply andb_true_intro. split; [apply beqb_eq; reflexivity|apply Z.leb_le; exact Hl].
